@@ -7,9 +7,17 @@ ASSUMPTIONS_COMMON = [
     "values outside the stated alphabets (digests, polynomials, curve points) are drawn by crypto/rand inside the library or seeded by VERIF_SEED",
 ]
 
+NOT_APPLICABLE = {}
+
+MANIFEST_NOTES = ("All checks are exhaustive bounded explorations of the real Go code (no separate model); "
+                  "bounds, caps and what was covered are in each evidence file. Genuine defects found are in known_findings.json.")
+
 CHECKS = {
     "C01": {
-        "pkg": "checks/c01", "level": "model_checking",
+        "pkg": "checks/c01", "level": "model_checking", "engine": "E1 bubble-net",
+        "technique": "stateless model checking: deviation-bounded DFS over delivery schedules of real parties in a synctest bubble + exhaustive subset/digest enumeration",
+        "level_text": "every delivery schedule (FIFO links) of the full real stack within the stated deviation bound, for every listed (n,t) and mode; all signer subsets x digest alphabet on the resulting shares",
+        "level_note": "bounded: deviations <= bound per configuration, n <= 5(6); digests from a fixed alphabet; go1.26.8 runtime and synctest trusted",
         "budget_s": {"quick": 150, "thorough": 900},
         "assumptions": ["links are FIFO per sender->receiver pair (what the bundled TLS transport provides)"],
     },
